@@ -136,6 +136,10 @@ func (cr *cursor) applyWordBoundaryRules(i int) (isWordBoundary, removePrevNoExt
 
 	isAfterNoExtend := cr.prevWordNoExtend == i-1
 
+	wb6 := (prevPrev == ucd.WordBreakALetter || prevPrev == ucd.WordBreakHebrew_Letter) &&
+		(prev == ucd.WordBreakMidLetter || prev == ucd.WordBreakMidNumLet || prev == ucd.WordBreakSingle_Quote) &&
+		(current == ucd.WordBreakALetter || current == ucd.WordBreakHebrew_Letter)
+
 	if cr.prev == '\u000D' && cr.r == '\u000A' { // Rule WB3
 		isWordBoundary = false
 	} else if prev == ucd.WordBreakNewlineCRLF && isAfterNoExtend {
@@ -147,6 +151,9 @@ func (cr *cursor) applyWordBoundaryRules(i int) (isWordBoundary, removePrevNoExt
 		isWordBoundary = true // Rule WB3b
 	} else if cr.prev == 0x200D && cr.isExtentedPic {
 		isWordBoundary = false // Rule WB3c
+		// some pictographs are also letters (U+2139, U+24C2): the ZWJ is transparent (WB4)
+		// and the boundary before a previous MidLetter is removed as well
+		removePrevNoExtend = wb6 // Rule WB6
 	} else if prev == ucd.WordBreakWSegSpace &&
 		current == ucd.WordBreakWSegSpace && isAfterNoExtend {
 		isWordBoundary = false // Rule WB3d
@@ -168,9 +175,7 @@ func (cr *cursor) applyWordBoundaryRules(i int) (isWordBoundary, removePrevNoExt
 		(current == ucd.WordBreakALetter || current == ucd.WordBreakHebrew_Letter || current == ucd.WordBreakNumeric ||
 			current == ucd.WordBreakKatakana) {
 		isWordBoundary = false // Rule WB13b
-	} else if (prevPrev == ucd.WordBreakALetter || prevPrev == ucd.WordBreakHebrew_Letter) &&
-		(prev == ucd.WordBreakMidLetter || prev == ucd.WordBreakMidNumLet || prev == ucd.WordBreakSingle_Quote) &&
-		(current == ucd.WordBreakALetter || current == ucd.WordBreakHebrew_Letter) {
+	} else if wb6 {
 		removePrevNoExtend = true // Rule WB6
 		isWordBoundary = false    // Rule WB7
 	} else if prev == ucd.WordBreakHebrew_Letter && current == ucd.WordBreakSingle_Quote {
